@@ -130,6 +130,7 @@ package rtph264
 //@   inv[C08] 0 <= d.frameBufferLen && d.frameBufferLen <= h264.MaxNALUsPerAccessUnit && len(d.frameBuffer) == d.frameBufferLen
 //@   inv[C08] 0 <= d.frameBufferSize && d.frameBufferSize <= h264.MaxAccessUnitSize
 //@   inv[C08] d.frameBuffer != nil ==> d.frameBufferLen >= 1
+//@   inv[C08] d.frameBuffer == nil ==> d.frameBufferSize == 0 && d.frameBufferLen == 0
 
 //@ func joinFragments
 //@   requires size >= 0 && size <= 281474976710656
